@@ -64,7 +64,7 @@ func (p *FrameParser) Parse(buffer []byte) error {
 		err = nil
 	}
 	if err != nil {
-		return fmt.Errorf("parse: %w", err)
+		return &common.BadPacketError{Err: fmt.Errorf("parse: %w", err)}
 	}
 	if err := p.checkLayers(); err != nil {
 		return &common.BadPacketError{Err: err}
